@@ -1458,6 +1458,8 @@ func (c *Conn) waitResponse(d *connDeadline, id int32) (deadline time.Time, size
 			// the wire is corrupted and the connection needs to be closed.
 			err = io.ErrNoProgress
 			verifTrace("conn.noprogress", c, id, rid)
+			d.unsetConnReadDeadline()
+			c.conn.Close()
 			c.rlock.Unlock()
 			break
 		}
